@@ -256,6 +256,24 @@ pub fn run(tier: &str) -> i32 {
                 }
             }
         }
+        // a list of at most one element against a flat list literal (membership element by element): the same flip
+        for x in [V::List(vec![]), V::List(vec![i(1)]), V::List(vec![i(2)]), V::List(vec![i(5)]), V::List(vec![s("a")]), V::List(vec![s("1")])] {
+            let doc = V::Map(vec![("x".into(), x.clone())]);
+            let dj = doc.json();
+            for ll in [vec![i(1)], vec![i(1), i(2)], vec![s("a")], vec![s("a"), i(1)], vec![i(5), s("1"), i(2)]] {
+                let c = Clause::Binary { not: false, some: false, q: vec![key("x")], op: BinOp::In, opneg: false, rhs: Arg::Lit(V::List(ll)), msg: None };
+                check_clause(&c, &doc, &dj, true, &mut acc);
+                let st0 = Style::default();
+                let (t_c, t_nc) = (text_of(&c, &st0), text_of(&set_not(&c, true), &st0));
+                let (o_c, o_nc) = (lib_run(&t_c, &dj), lib_run(&t_nc, &dj));
+                acc.traces += 2;
+                n1c += 1;
+                match (rule_status(&o_c), rule_status(&o_nc)) {
+                    (Ok(a1), Ok(b1)) if a1 != St::Skip && b1 == swap(a1) => {}
+                    (a1, b1) => acc.violate("prefix-not-does-not-flip:short-list-in-list", format!("`{}` is {:?} and `{}` is {:?} on {}", t_c.trim(), a1, t_nc.trim(), b1, dj), json!({"kind":"lib2","rules":t_c,"rules2":t_nc,"data":dj,"expected":"negation flips PASS/FAIL","observed":format!("{} vs {}", o_c.short(), o_nc.short())})),
+                }
+            }
+        }
         rep.states += n1c;
         rep.transitions += n1c * 3;
     }
